@@ -4,6 +4,7 @@ import MJ.Proofs.JsonStr
 import MJ.Proofs.JsonFull
 import MJ.Proofs.JsonFloat
 import MJ.Proofs.SerdeTotal
+import MJ.Proofs.ValueSer
 /-!
 # C16 — values round-trip through serde; `tojson` emits valid, HTML-safe JSON
 
@@ -13,7 +14,7 @@ post-processing, an independent strict JSON reader).  Tables (`MJ.Gen.tojsonRepl
 `MJ.Gen.jsonEscapeTable`, `MJ.Gen.jinja*Sep`) are regenerated from the sources on every run.
 -/
 namespace MJ.C16
-open MJ.Serde MJ.Json
+open MJ.Serde MJ.Json MJ.ValueSer
 
 /-- The property, at full strength, about the model. -/
 def C16_full : Prop :=
@@ -43,7 +44,11 @@ def C16_full : Prop :=
   (∀ (v : V) (st : Style) (j : J), jsonOf v = .ok j →
       parseJ (tojson (writeJ st j)) = some j ∧ parseJ (writeJ st j) = some j) ∧
   -- (7) `de` decides every object-free value for every shape without embedded `Value`s
-  (∀ (s : Shape) (v : V), valueFree s = true → objFree v = true → de s v ≠ .error .unmodelled)
+  (∀ (s : Shape) (v : V), valueFree s = true → objFree v = true → de s v ≠ .error .unmodelled) ∧
+  -- (8) towards an external serializer (serde_json for tojson / auto-escaping) a value keeps serde's
+  --     length contract: an announced `Some(n)` is exactly the number of elements / entries that
+  --     follow, for every object whose iterator reports an honest size hint
+  (∀ (lv : LV), Honest lv → ContractOK (serCalls lv))
 
 /-! ## (1) round trip -/
 
@@ -252,11 +257,28 @@ theorem de_total_classification (s : Shape) (v : V) (hs : valueFree s = true) (h
 
 example : valueFree exShape = true ∧ objFree (ser exShape exData) = true := ⟨by decide, by rfl⟩
 
+/-! ## (8) the serde length contract of `impl Serialize for Value` -/
+
+/-- every sequence-like object (lists, tuples, one-shot iterators, `make_iterable` adapters, custom
+objects with any `Enumerator` answer) announces `Some(n)` to the external serializer only when
+exactly `n` elements follow; maps announce nothing -/
+theorem serialize_contract (lv : LV) (h : Honest lv) : ContractOK (serCalls lv) := contract_serCalls lv h
+
+theorem announced_len_exact (en : En) (xs : List LV) (h : Honest (.lazy en xs)) (n : Nat) (elems : List Call)
+    (hc : serCalls (.lazy en xs) = .seq (some n) elems) : elems.length = n :=
+  MJ.ValueSer.announced_len_exact en xs h n elems hc
+
+/-- a one-shot iterator (hint `(0, None)`) with three items inside a list: nothing is announced for it -/
+example : serCalls (.list false [.lazy (.hinted 0 none) [.leaf (.int false 1), .leaf (.int false 2), .leaf (.int false 3)]])
+    = .seq (some 1) [.seq none [.int 1, .int 2, .int 3]] := rfl
+example : Honest (.list false [.lazy (.hinted 0 none) [.leaf (.int false 1), .leaf (.int false 2), .leaf (.int false 3)]]) := by
+  simp [Honest, HonestList, enHonest]
+
 /-- the full statement holds for the model -/
 theorem c16_full : C16_full :=
   ⟨de_ser_roundtrip, value_embedding_identity, value_embedding_in_context, registry_remove_insert,
    registry_frame, registry_no_residue, tojson_alphabet, tojson_string_parses_back,
    autoescape_string_parses_back, tojson_parses_back, autoescape_parses_back,
-   tojson_parses_back_all, de_total_classification⟩
+   tojson_parses_back_all, de_total_classification, serialize_contract⟩
 
 end MJ.C16
